@@ -153,7 +153,23 @@ def variants(rng, g, a, src, kinds):
 
 
 def generate(seed, tier, ncases=None):
-    return itertools.islice(_generate(seed, tier), ncases) if ncases else _generate(seed, tier)
+    it = itertools.islice(_generate(seed, tier), ncases) if ncases else _generate(seed, tier)
+    for i, c in enumerate(it):
+        yield _with_history(seed, i, c)
+
+
+def _with_history(seed, i, c):
+    """For some cases the SAME graph object is enumerated first in an earlier state (one bond moved, node and
+    edge counts equal) and then edited in place into the case's graph: the answer must describe the current graph."""
+    rng = lib.rng_for(seed, ID + ":hist", i)
+    g = c["graph"]
+    if rng.random() < 0.2 and g.number_of_edges() >= 1:
+        nodes = list(g.nodes)
+        non = [(u, v) for k, u in enumerate(nodes) for v in nodes[k + 1:] if not g.has_edge(u, v)]
+        if non:
+            c = dict(c)
+            c["hist"] = [list(rng.choice(list(g.edges))), list(rng.choice(non))]
+    return c
 
 
 def _generate(seed, tier):
@@ -245,6 +261,17 @@ def snapshot(h):
 def run_impl(c):
     h, fwd, back = named_graph(c)
     anchor = fwd(c["anchor"])
+    if c.get("hist"):
+        (a1, a2), (b1, b2) = c["hist"]
+        lab = dict(h[fwd(a1)][fwd(a2)])
+        h.remove_edge(fwd(a1), fwd(a2))
+        h.add_edge(fwd(b1), fwd(b2), **lab)
+        try:
+            list(node_induced_connected_subgraphs(h, anchor))
+        except Exception:  # noqa
+            pass
+        h.remove_edge(fwd(b1), fwd(b2))
+        h.add_edge(fwd(a1), fwd(a2), **lab)
     before = snapshot(h)
     try:
         res = list(node_induced_connected_subgraphs(h, anchor))
@@ -292,7 +319,7 @@ def _jname(x):
 
 def describe(c):
     return {"graph": ct.graph_py(c["graph"]), "anchor": c["anchor"], "scheme": c["scheme"], "src": c["src"],
-            "style": c["style"],
+            "style": c["style"], "hist": c.get("hist"),
             "names": None if c["names"] is None else [[k, _jname(v)] for k, v in c["names"].items()]}
 
 
@@ -301,7 +328,7 @@ def from_json(d):
     if d.get("names") is not None:
         names = {k: (tuple(v) if isinstance(v, list) else v) for k, v in d["names"]}
     return {"graph": ct.graph_from_py(d["graph"]), "anchor": d["anchor"], "scheme": d["scheme"], "src": d["src"],
-            "style": d.get("style"), "names": names}
+            "style": d.get("style"), "names": names, "hist": d.get("hist")}
 
 
 def describe_out(out):
@@ -313,7 +340,7 @@ def describe_out(out):
 def key(c):
     g = c["graph"]
     names = None if c["names"] is None else tuple(repr(c["names"][n]) for n in g._node)
-    return (tuple((n, tuple(g._adj[n])) for n in g._node), c["anchor"], names)
+    return (tuple((n, tuple(g._adj[n])) for n in g._node), c["anchor"], names, repr(c.get("hist")))
 
 
 def nontrivial(c, out):
